@@ -36,6 +36,8 @@ type hostileReq struct {
 	Claim int64 `json:"claim,omitempty"`
 	// http targets: status of the reply (0 = 200)
 	Status int `json:"status,omitempty"`
+	// http targets: body of the /items and /files listings ("" = one plain name)
+	Listing string `json:"listing,omitempty"`
 }
 
 type hostileResp struct {
@@ -65,6 +67,7 @@ var (
 	hostilePayload   []byte
 	hostileClaim     int64
 	hostileStatus    int
+	hostileListing   string
 	hostileServer    *httptest.Server
 )
 
@@ -99,7 +102,13 @@ func hostileURL() string {
 			}
 			if r.URL.Path == "/items" || r.URL.Path == "/files" {
 				w.Header().Set("Content-Type", "text/plain")
-				io.WriteString(w, "item1\n")
+				hostilePayloadMu.Lock()
+				lst := hostileListing
+				hostilePayloadMu.Unlock()
+				if lst == "" {
+					lst = "item1\n"
+				}
+				io.WriteString(w, lst)
 				return
 			}
 			w.Header().Set("Content-Type", "application/octet-stream")
@@ -243,6 +252,29 @@ func execHostile(req hostileReq, dir string) (resp hostileResp) {
 				return
 			}
 		}
+		// single updates (best archive) with ages around the last archive's real retention and around the header's
+		// max-retention FIELD (bytes 4..7), which a damaged header may have larger or smaller than the archives say
+		if n > 0 {
+			last := db.ArchiveInfoList()[n-1]
+			realRet := int64(last.SecondsPerPoint()) * int64(last.NumberOfPoints())
+			field := int64(db.MaxRetention())
+			for _, age := range []int64{realRet - 1, realRet, realRet + 1, (realRet + field) / 2, field - 1, field, field + 1} {
+				age := age
+				if age < 0 || age >= now {
+					continue
+				}
+				if !try(fmt.Sprintf("UpdatePointForArchive(best, age %d)", age), func() {
+					db.UpdatePointForArchive(-1, wt.Timestamp(now-age), 3.5, wt.Timestamp(now))
+				}) {
+					return
+				}
+				if !try(fmt.Sprintf("UpdatePointsForArchive(best, age %d)", age), func() {
+					db.UpdatePointsForArchive([]wt.Point{{Time: wt.Timestamp(now - age), Value: 4.5}, {Time: wt.Timestamp(now), Value: 1}}, -1, wt.Timestamp(now))
+				}) {
+					return
+				}
+			}
+		}
 		// a run of updates one step apart in every archive (every alignment of a point relative to the coarser
 		// archives' slots), each propagating upward
 		for a := 0; a < n && a < 6; a++ {
@@ -297,12 +329,94 @@ func execHostile(req hostileReq, dir string) (resp hostileResp) {
 			}
 		}
 		try("Sync", func() { db.Sync() })
+	case "http-diff-src", "http-copy-src", "http-sumdiff-dest", "http-sumdiff-src":
+		// the hostile reply is ONE side of a two-sided command; the other side is a healthy local file of the
+		// layout the reply's header announces (so that the command gets as far as comparing the two)
+		url := hostileURL()
+		hostilePayloadMu.Lock()
+		hostilePayload = req.Data
+		hostileClaim = 0
+		hostileStatus = 0
+		hostileListing = req.Listing
+		hostilePayloadMu.Unlock()
+		h, herr := ParseWspHeader(req.Data)
+		if herr != nil || len(h.Archives) == 0 || len(h.Archives) > 8 {
+			resp.Err = "no usable header in the payload"
+			return
+		}
+		var l Layout
+		l.Method, l.XFF = int(h.Agg), h.XFF
+		for _, a := range h.Archives {
+			l.Archives = append(l.Archives, Arch{Step: int64(a.Step), Points: int64(a.Points)})
+		}
+		if l.FileSize() > 1<<20 {
+			resp.Err = "announced layout too large for the local side"
+			return
+		}
+		local := filepath.Join(dir, fmt.Sprintf("local-%d", time.Now().UnixNano()))
+		defer os.RemoveAll(local)
+		mk := func(rel string) bool {
+			p := filepath.Join(local, rel)
+			os.MkdirAll(filepath.Dir(p), 0755)
+			db, err := createWT(p, l)
+			if err != nil {
+				return false
+			}
+			db.Sync()
+			db.Close()
+			return true
+		}
+		var c cmd.Command
+		switch req.Target {
+		case "http-diff-src":
+			if !mk("a/b.wsp") {
+				resp.Err = "layout not creatable"
+				return
+			}
+			c = &cmd.DiffCommand{SrcBase: url, SrcRelPath: "a/b.wsp", DestBase: local, ArchiveID: cmd.ArchiveIDAll, TextOut: ""}
+			if req.Listing != "" {
+				c.(*cmd.DiffCommand).SrcRelPath = "a/*.wsp" // glob mode: the file names come from the /files listing
+			}
+		case "http-copy-src":
+			if !mk("a/b.wsp") {
+				resp.Err = "layout not creatable"
+				return
+			}
+			c = &cmd.CopyCommand{SrcBase: url, SrcRelPath: "a/b.wsp", DestBase: local, AggregationMethod: wt.AggregationMethod(l.Method), XFilesFactor: l.XFF, ArchiveInfoList: wtArchives(l), ArchiveID: cmd.ArchiveIDAll, TextOut: ""}
+			if req.Listing != "" {
+				c.(*cmd.CopyCommand).SrcRelPath = "a/*.wsp"
+			}
+		case "http-sumdiff-dest":
+			if !mk("item1/f1.wsp") {
+				resp.Err = "layout not creatable"
+				return
+			}
+			c = &cmd.SumDiffCommand{SrcBase: local, ItemPattern: "item1", SrcPattern: "*.wsp", DestBase: url, DestRelPath: "sum.wsp", ArchiveID: cmd.ArchiveIDAll, TextOut: ""}
+		default:
+			if !mk("item1/sum.wsp") {
+				resp.Err = "layout not creatable"
+				return
+			}
+			c = &cmd.SumDiffCommand{SrcBase: url, ItemPattern: "item1", SrcPattern: "*.wsp", DestBase: local, DestRelPath: "sum.wsp", ArchiveID: cmd.ArchiveIDAll, TextOut: ""}
+		}
+		var err error
+		resp.Where = req.Target + " Execute"
+		if pm := guard(func() { err = c.Execute() }); pm != "" {
+			resp.Panic = pm
+			return
+		}
+		if err != nil {
+			resp.Err = err.Error()
+		} else {
+			resp.Decoded = true
+		}
 	case "http-view", "http-view-raw", "http-sum":
 		url := hostileURL()
 		hostilePayloadMu.Lock()
 		hostilePayload = req.Data
 		hostileClaim = req.Claim
 		hostileStatus = req.Status
+		hostileListing = req.Listing
 		hostilePayloadMu.Unlock()
 		var c cmd.Command
 		switch req.Target {
